@@ -246,6 +246,10 @@ class Scenario:
                 s.host = "stranger.example.org"
                 return env.cer(host=s.host, acct=napps_acct or (env.APP_ACCT,), auth=napps_auth, hbh=hbh, e2e=e2e)
             s.host = cfg["peers"][0]["name"]
+            if var == "vsa":        # the shared application is only offered inside Vendor-Specific-Application-Id
+                vsas = [rc.grouped(260, [rc.u32(266, 10415), rc.u32(259, a)]) for a in napps_acct] + \
+                       [rc.grouped(260, [rc.u32(266, 10415), rc.u32(258, a)]) for a in napps_auth]
+                return env.cer(host=s.host, acct=(), auth=(), hbh=hbh, e2e=e2e, extra=vsas)
             if var == "nocommon":
                 return env.cer(host=s.host, acct=(99,), auth=(98,), hbh=hbh, e2e=e2e)
             if var == "crosskind":      # the node's auth ids offered as acct ids and vice versa: nothing is shared
@@ -334,6 +338,9 @@ class Scenario:
                 s.nreq -= 1
                 return None
             d = env.acr(host=host, hbh=hb, e2e=e2e)
+        elif name == "req_big":     # larger than one recv(2048): arrives over several reads
+            d = env.acr(host=host, hbh=hbh, e2e=e2e, extra=[rc.octets(25, bytes((i * 7) & 0xff for i in range(3000)))]) if napps_acct else \
+                env.ccr(host=host, hbh=hbh, e2e=e2e)
         elif name == "req_auth":
             d = env.ccr(host=host, hbh=hbh, e2e=e2e)
         elif name == "req_acct":
